@@ -1,14 +1,16 @@
 #!/bin/bash
-# build.sh [race]: instrument /repo's current working tree and build the harness binary
+# build.sh [race]: instrument /repo's current working tree and build the harness binary.
+# Everything is relative to this checkout of /verif (so a snapshot of it builds itself).
 set -e
-. /verif/scripts/env.sh
-cd /verif
+ROOT=$(cd "$(dirname "$0")/.." && pwd)
+. "$ROOT/scripts/env.sh"
+cd "$ROOT"
 mkdir -p build
 if [ ! -x simgen/simgen ] || [ simgen/main.go -nt simgen/simgen ]; then (cd simgen && go build -o simgen .) ; fi
-./simgen/simgen -repo /repo -out /verif/build -simrt /verif/simrt -hooks /verif/hooks >/dev/null
+./simgen/simgen -repo /repo -out "$ROOT/build" -simrt "$ROOT/simrt" -hooks "$ROOT/hooks" >/dev/null
 cd harness
 if [ "$1" = race ]; then
-  go1.26.8 test -c -race -vet=off -overlay /verif/build/overlay.json -o /verif/build/harness.race.test .
+  go1.26.8 test -c -race -vet=off -overlay "$ROOT/build/overlay.json" -o "$ROOT/build/harness.race.test" .
 else
-  go1.26.8 test -c -vet=off -overlay /verif/build/overlay.json -o /verif/build/harness.test .
+  go1.26.8 test -c -vet=off -overlay "$ROOT/build/overlay.json" -o "$ROOT/build/harness.test" .
 fi
